@@ -57,4 +57,11 @@ def initOnlyTableOf (name last : String) : Option String :=
   | some e => (match e.2.1 with | .initOnly t => some t | _ => none)
   | none => if last == "vopts" && name != last then some "vopts" else none
 
+/-- std::map / std::set types keyed by a POINTER (their iteration order is the order of addresses, i.e. allocator history):
+each occurrence reviewed, with the reason why that order cannot reach any result -/
+def pointerKeyedReviewed : List (String × String) := [
+  ("std::map<const char*>", "Phreeqc::rates_map: interned rate name -> index; only find / operator[] / clear, never iterated"),
+  ("std::set<StorageBinListItem*>", "StorageBinList::GetAllItems: the same Clear/Set_defined/Augment is applied to every item; the effect does not depend on the order"),
+  ("std::set<std::ostream*>", "PHRQ_io::close_ostreams: the distinct streams to close; closing order is not observable in any channel")]
+
 end PhreeqcVerif.GlobalsPolicy
